@@ -19,6 +19,7 @@ import (
 	"github.com/q191201771/lal/pkg/base"
 
 	"github.com/q191201771/lal/pkg/rtprtcp"
+	"github.com/q191201771/naza/pkg/nazahttp"
 	"github.com/q191201771/naza/pkg/nazanet"
 )
 
@@ -269,3 +270,25 @@ func init() {
 // 8001 video rtcp
 // 8002 audio rtp
 // 8003 audio rtcp
+
+// readHttpRequestMessage readHttpResponseMessage
+//
+// 对 nazahttp.ReadHttpRequestMessage 和 nazahttp.ReadHttpResponseMessage 的封装。
+// naza中直接用对端填写的Content-Length申请内存，值不合法（比如负数）时会panic，这里把它转换成error，由上层关闭这个session
+func readHttpRequestMessage(r nazahttp.HttpReader) (ctx nazahttp.HttpReqMsgCtx, err error) {
+	defer func() {
+		if e := recover(); e != nil {
+			err = fmt.Errorf("%w. invalid rtsp message: %+v", base.ErrRtsp, e)
+		}
+	}()
+	return nazahttp.ReadHttpRequestMessage(r)
+}
+
+func readHttpResponseMessage(r nazahttp.HttpReader) (ctx nazahttp.HttpRespMsgCtx, err error) {
+	defer func() {
+		if e := recover(); e != nil {
+			err = fmt.Errorf("%w. invalid rtsp message: %+v", base.ErrRtsp, e)
+		}
+	}()
+	return nazahttp.ReadHttpResponseMessage(r)
+}
